@@ -230,9 +230,57 @@ def _not_tests(prog):
     for g in prog.bodies:
         if g.locals[0]['ty'] != 'bool':
             continue
-        r = prog.reach([g.id])
+        r = _reach_with_bound_fn_args(prog, g.id)
         if r & direct:
-            out[g.id] = not _reaches_registry(prog, g.id)
+            out[g.id] = not any(_locks_registry(prog, bid) for bid in r)
+    return out
+
+
+def _locks_registry(prog, bid):
+    from analysis import LOCK_CALLS, guard_class
+    for c in prog.by_id[bid].live_calls:
+        if (c.callee in LOCK_CALLS or (c.ruid is not None and c.ruid in getattr(prog, 'acq_helpers', ()))) and guard_class(c.term['dest']['ty']) == 'REGISTRY':
+            return True
+    return False
+
+
+def _reach_with_bound_fn_args(prog, root):
+    """bodies reachable from root, where an indirect call through a `fn(..)` parameter inside a helper reaches only the
+    fn items handed in at the call site the helper was entered through (`self.is_operator_where(keyword::is_not)` reaches
+    `is_not`, not every predicate some other caller passes)"""
+    out = set()
+    seen = set()
+    st = [(root, None)]
+    while st:
+        bid, allowed = st.pop()
+        if (bid, allowed) in seen or bid not in prog.by_id:
+            continue
+        seen.add((bid, allowed))
+        out.add(bid)
+        b = prog.by_id[bid]
+        handled = set()
+        for c in b.live_calls:
+            if c.ruid in prog.by_id:
+                fns = set()
+                for a in c.args:
+                    o = single_origin(trace_operand(b, a, through_calls=set()))
+                    if o is not None and o.kind == 'const' and isinstance(o.data, dict) and o.data.get('fn') and o.data['fn'].get('uid') in prog.by_id:
+                        fns.add(o.data['fn']['uid'])
+                    elif o is not None and o.kind == 'agg' and o.data[2].get('agg') == 'closure' and o.data[2]['closure'] in prog.by_id:
+                        fns.add(o.data[2]['closure'])
+                st.append((c.ruid, frozenset(fns) if fns else None))
+                handled.add(c.ruid)
+                handled |= fns
+            elif c.is_indirect or (bid, c.bb) in getattr(prog, 'generic_cb_targets', {}):
+                tg = list(prog.resolved_indirect.get((bid, c.bb), [])) + list(getattr(prog, 'generic_cb_targets', {}).get((bid, c.bb), []))
+                handled |= set(tg)
+                if allowed is not None:
+                    tg = [t for t in tg if t in allowed]
+                for t in tg:
+                    st.append((t, None))
+        for y in prog.edges.get(bid, ()):
+            if y not in handled:
+                st.append((y, None))
     return out
 
 
@@ -405,6 +453,12 @@ def parity_separated(prog):
             if pl['l'] == 0 and rv['k'] == 'agg' and rv['agg'] == 'tuple' and len(rv['ops']) == 2 and not pl['p']:
                 lo = trace_operand(b, rv['ops'][0])
                 ro = trace_operand(b, rv['ops'][1])
+                # a re-packed pair of another pair function (`let bp = self.get_bp(op); (bp.left, bp.right)`): forwarded, judged there
+                fw = [o for o in list(lo) + list(ro)]
+                if fw and all(o.kind == 'callres' and o.data.ruid in pf and o.data.ruid != b.id for o in fw) \
+                        and all(o.proj[-1:] == (('f', 0),) for o in lo) and all(o.proj[-1:] == (('f', 1),) for o in ro) \
+                        and {o.data.bb for o in lo} == {o.data.bb for o in ro}:
+                    continue
                 for o in lo:
                     if o.kind == 'const' and (op_const_int(o.data) or 0) < 0:
                         continue
@@ -487,7 +541,9 @@ def rule_wgate(roles):
     # exit: returns iff Z rel_e MIN  => continues iff not(Z rel_e MIN)
     rel_e = norm(exitc[0], exitc[1], exitc[2], exitc[3], 'L')
     cont = {'<': '>=', '<=': '>', '>': '<=', '>=': '<'}[rel_e]
-    shape_ok = all(x[0] in ('L', 'C') for x in (gate[1] if any(y[0] == 'L' for y in gate[1]) else gate[2])) and any(x[0] == 'R' for x in xk)
+    l_side, o_side = (gate[1], gate[2]) if any(y[0] == 'L' for y in gate[1]) else (gate[2], gate[1])
+    # the side compared with next.left is the very value handed to the recursive call (not `right - 1`, not another pair's power)
+    shape_ok = all(x[0] in ('L', 'C') for x in l_side) and any(x[0] == 'R' for x in xk) and set(o_side) == set(xk)
     if not shape_ok:
         return [bad('WGATE', key, 'the gate does not compare the left binding power of the next operator with the right binding power handed to the recursive call (gate sides %s / %s, passed %s)' % (sorted(gate[1]), sorted(gate[2]), sorted(xk)), b.where(gate[4]), body=b.name)]
     if rel_g == cont:
